@@ -1,7 +1,8 @@
 """Batch trace validation (DESIGN.md section 2.2 use 3): executions recorded from the real code are
 accepted or rejected by TLC against the specification, thousands per JVM start.
 
-A trace is a list of events {"op": operation record, "ret": result, "st": observation after the call}.
+A trace is a list of events {"op": operation record, "ret": result, "st": observation after the call}
+(optionally "hs": 0 = no observation was taken after this call, "st" is then ignored).
 The trace module is generated from a template; it re-uses the specification's own `Init`, `Apply`
 and `Obs`, so the trace is accepted iff it is a behaviour of the specification.
 """
@@ -20,8 +21,11 @@ Traces == JsonDeserialize("traces.json")
 T == Traces[tid]
 E == T[l]
 TInit == Init /\ tid \in 1..Len(Traces) /\ l = 1
+\* an event recorded without an observation (hs = 0: observing would itself call the object and could hide what the
+\* history left behind) constrains the operation and its result only; the state in between is inferred by TLC
+HasSt(e) == IF "hs" \in DOMAIN e THEN e.hs = 1 ELSE TRUE
 TStep == /\ l <= Len(T) /\ l' = l + 1 /\ UNCHANGED tid
-         /\ Apply(E.op) /\ last'.ret = E.ret /\ Obs' = E.st
+         /\ Apply(E.op) /\ last'.ret = E.ret /\ (HasSt(E) => Obs' = E.st)
 TSpec == TInit /\ [][TStep]_<<vars, last, tid, l>>
 ASSUME \A i \in 1..Len(Traces) : TLCSet(i, 0)
 Progress == TLCSet(tid, IF TLCGet(tid) < l THEN l ELSE TLCGet(tid))
@@ -71,6 +75,8 @@ def corrupt(traces, mutator_ops):
     the state before it. Returns a one-trace list, or None if no suitable event exists."""
     for t in traces:
         for i in range(1, len(t)):
+            if t[i].get("hs", 1) == 0 or t[i - 1].get("hs", 1) == 0:
+                continue
             if t[i]["op"].get("op") in mutator_ops and canon(t[i]["st"]) != canon(t[i - 1]["st"]):
                 bad = copy.deepcopy(t)
                 bad[i]["st"] = bad[i - 1]["st"]
